@@ -246,23 +246,26 @@ def class_int(fn, i=0):
     return ti[i].get('int') if i < len(ti) else None
 
 
-def value_level(run, F, tier):
+SMALL_CAPS = (1, 2, 3, 4, 5, 6, 7, 8, 9, 16, 64)      # 1..9 = every serial-buffer size a machine can have (1 + bit width of <= 255 states)
+
+
+def value_level(run, F, tier, cap=255, rule='C13.d'):
     """C13.d: for every field width N and every start cursor c with c + N <= capacity: write<N> places exactly the N low bits of the
     item at buffer bits [c, c+N) (LSB first), leaves the bits below c untouched and the bits above c+N zero, and advances the
     cursor by N; read<N> returns exactly the buffer bits [c, c+N) and advances the cursor by N. Decided by bit-provenance
     abstract interpretation (lint/bitprov.py) -- exhaustive over (N, c), no data values involved."""
     from lint import bitprov
     from lint.bitprov import const_bits, to_int
-    cap = 255
     nbytes = (cap + 7) // 8
-    writers = {parse_width(f): f for f in F.find('BitWriteStreamT', 'write') if class_int(f) == 255}
-    readers = {parse_width(f): f for f in F.find('BitReadStreamT', 'read') if class_int(f) == 255}
-    run.require(len(writers) >= 32 and len(readers) >= 32, 'w_streams does not instantiate all 32 widths (%d writers, %d readers)' % (len(writers), len(readers)))
-    cursors = range(0, cap) if tier == 'thorough' else list(range(0, 41)) + [63, 64, 100, 127, 128, 200, 222, 223, 247, 248, 254]
+    maxw = min(32, cap)
+    writers = {parse_width(f): f for f in F.find('BitWriteStreamT', 'write') if class_int(f) == cap}
+    readers = {parse_width(f): f for f in F.find('BitReadStreamT', 'read') if class_int(f) == cap}
+    run.require(len(writers) >= maxw and len(readers) >= maxw, 'w_streams does not instantiate all %d widths at capacity %d (%d writers, %d readers)' % (maxw, cap, len(writers), len(readers)))
+    cursors = range(0, cap) if (tier == 'thorough' or cap <= 64) else list(range(0, 41)) + [63, 64, 100, 127, 128, 200, 222, 223, 247, 248, 254]
     I = bitprov.Interp(F)
     n_cases = 0
     semantic = {}
-    for N in range(1, 33):
+    for N in range(1, maxw + 1):
         item_w = 8 if N <= 8 else 16 if N <= 16 else 32
         bad_w = bad_r = None
         for c0 in cursors:
@@ -312,9 +315,9 @@ def value_level(run, F, tier):
                         break
                 if bad_r is None and to_int(this['_cursor']) != c0 + N:
                     bad_r = {'cursor': c0, 'cursor after': to_int(this['_cursor']), 'expected': c0 + N}
-        run.ob('C13.d', 'write<%d>: item bits 0..%d land at [cursor, cursor+%d), nothing else changes, cursor += %d (all %d start cursors)' % (N, N - 1, N, N, len([c for c in cursors if c + N <= cap])),
+        run.ob(rule, 'write<%d> on a %d-bit stream: item bits 0..%d land at [cursor, cursor+%d), nothing else changes, cursor += %d (all %d start cursors)' % (N, cap, N - 1, N, N, len([c for c in cursors if c + N <= cap])),
                bad_w is None, where=writers[N].pat, detail=bad_w, key='write<N> does not place exactly its own field')
-        run.ob('C13.d', 'read<%d>: returns buffer bits [cursor, cursor+%d), cursor += %d (all start cursors)' % (N, N, N), bad_r is None, where=readers[N].pat,
+        run.ob(rule, 'read<%d> on a %d-bit stream: returns buffer bits [cursor, cursor+%d), cursor += %d (all start cursors)' % (N, cap, N, N), bad_r is None, where=readers[N].pat,
                detail=bad_r, key='read<N> does not return exactly the field at the cursor')
         semantic[('w', N)] = bad_w is None
         semantic[('r', N)] = bad_r is None
@@ -331,6 +334,9 @@ def run(run):
         F = facts.load('w_streams', 'S', v)
         run.require(F.unknown == 0, 'unknown AST nodes')
         semantic[v] = value_level(run, F, run.tier)
+        # ... and at small capacities, among them stream lengths that are an exact number of bytes (a field that ends on the last bit)
+        for cap_ in SMALL_CAPS:
+            run.guard('value level (capacity %d)' % cap_, value_level, run, F, run.tier, cap_)
         facts.drop(F)
     for (w, c, v) in jobs:
         F = facts.load(w, c, v)
